@@ -220,6 +220,13 @@ def run_case(case):
                             add("%s:%s" % (op, r[1]), "%s raised %s on a live object but not on a fresh one" % (op, r[2]), r[2], "as fresh", h2)
                     elif e[0] == "ok" and r[1] != e[1]:
                         add("answer-differs:%s:%s" % (op, _last_deriv(hist)), "%s answers differently from a fresh copy" % op, r[1], e[1], h2)
+                    elif r[0] == "ok" and op in ("fcfs", "dot_bracket", "all_dot_brackets"):
+                        # a fresh copy made in the same process would share any process-wide state: the answer must also be right in itself
+                        for sq, st in ([r[1]] if op != "all_dot_brackets" else r[1]):
+                            probs = ref2d.check_encoding(n, seq, [list(p) for p in ref], sq, st)
+                            if probs:
+                                add("answer-wrong-in-itself:%s" % op, "%s of an object with pairs %s is not an encoding of it: %s" % (op, list(ref), "; ".join(probs)[:200]), [sq, st], None, h2)
+                                break
                     answers.add((op, repr(r[1:])[:200]))
                 nbefore = len(out)
                 invariant(g2, refs2, h2)
